@@ -25,7 +25,7 @@ Definition may_change (streams : list stream) (prev o : obs) (l : label) (t : st
      | EvError t' => String.eqb t' t
      | ApiPause t' | ApiResume t' => String.eqb t' t
      | Crash => true
-     | Feed _ _ _ => false
+     | Feed _ _ _ _ => false
      end.
 
 Definition check_point (streams : list stream) (prev o : obs) (l : label) : bool :=
